@@ -119,4 +119,63 @@ def Op.isPackOrIndexWrite : Op → Bool
   | .writePack _ | .writeIndex _ | .other => true
   | _ => false
 
+/-! ### step-wise safety (what each storage operation needs in the state it is applied to) -/
+
+/-- The premise under which one operation keeps the repository consistent:
+* a pack write, a key/config write and a snapshot removal need nothing;
+* an index write may list (unmarked) only packs that are already stored with those blobs;
+* a snapshot write needs its whole closure indexed;
+* an index removal needs every snapshot to stay readable from the remaining index files;
+* a pack removal needs that no remaining index file lists the pack unmarked. -/
+def safeOp (r : Repo) : Op → Bool
+  | .writePack _ => true
+  | .other => true
+  | .removeSnap _ => true
+  | .writeIndex i => i.packs.all (idxPackSound r)
+  | .writeSnap s => readable r s
+  | .removeIndex id => r.snaps.all (readable (apply r (.removeIndex id)))
+  | .removePack id => r.indexes.all (fun i => i.packs.all (fun p => p.id != id))
+
+def allSafe : Repo → List Op → Bool
+  | _, [] => true
+  | r, o :: ops => safeOp r o && allSafe (apply r o) ops
+
+/-- first prefix length whose state is not consistent (none = all prefixes consistent). -/
+def firstBad (r : Repo) (ops : List Op) : Option Nat :=
+  let rec go (r : Repo) (k : Nat) : List Op → Option Nat
+    | [] => if consistent r then none else some k
+    | o :: ops => if consistent r then go (apply r o) (k + 1) ops else some k
+  go r 0 ops
+
+/-- sequential execution with one injected failure: the command stops at the failing operation. -/
+def runWithFault (r : Repo) (failAt : Nat) : List Op → Repo × Bool
+  | [] => (r, true)
+  | o :: ops => if failAt = 0 then (r, false) else runWithFault (apply r o) (failAt - 1) ops
+
+/-! ### phase order of the commands (language of operation kinds) -/
+def Op.kind : Op → Char
+  | .writePack _ => 'P' | .removePack _ => 'p' | .writeIndex _ => 'I' | .removeIndex _ => 'i'
+  | .writeSnap _ => 'S' | .removeSnap _ => 's' | .other => 'O'
+
+/-- consume the longest prefix of kinds in `allowed`, phase by phase; accepted iff nothing is left. -/
+def matchPhases : List (List Char) → List Char → Bool
+  | [], ks => ks.isEmpty
+  | ph :: phs, ks => matchPhases phs (ks.dropWhile (fun c => ph.contains c))
+
+def phasesOf (cmd : String) : Option (List (List Char)) :=
+  match cmd with
+  | "backup" => some [['P', 'I'], ['S']]
+  | "merge" => some [['P', 'I'], ['S'], ['s']]
+  | "copy" => some [['P', 'I'], ['S']]
+  | "rewrite" => some [['P', 'I'], ['S'], ['s']]
+  | "repairsnap" => some [['P', 'I'], ['S'], ['s']]
+  | "forget" => some [['s']]
+  | "prune" => some [['P', 'I'], ['i'], ['p']]
+  | "prune-instant" => some [['p'], ['P', 'I'], ['i'], ['p']]
+  | "repairidx" => some [['I'], ['i']]
+  | "repairidx-readall" => some [['I'], ['i']]
+  | "config" => some [['O']]
+  | "key" => some [['O']]
+  | _ => none
+
 end Rustic.Repo
